@@ -438,7 +438,8 @@ def decide_producer(repo, rep, ci, fi, v: PV, r: ast.Return, interp: Polarity) -
     if py == M and not is_top(v):
         rep.violation("POLARITY-PRODUCER", fi, construct, "parts of the soft output are increasing and parts are decreasing in the received amplitude: one of them has the wrong sign", trace=trace + interp.definite[:4], node=r)
         return 1
-    if is_top(v) or py == T:
+    if is_top(v) or py == T or any(p_ == T for _k, p_ in v.pol):
+        # an unknown dependence on anything (a subset selection the domain did not recognise ...) leaves the polarity open
         rep.undecided("POLARITY-PRODUCER", fi, construct, "polarity of the LLR in the received value could not be decided", trace=trace + interp.unknown_ops[:6], node=r)
         return 1
     if py == C:
